@@ -387,6 +387,19 @@ def builtin_call(ex, name, e, env):
             # truncation towards zero
             fl = z3.ToInt(v)
             return z3.If(v >= 0, fl, z3.If(z3.ToReal(fl) == v, fl, fl + 1))
+        if isinstance(v, Opaque) or isinstance(v, str) or v is None:
+            # int() of a value that is no number: a str may or may not parse (oracle), everything else raises TypeError
+            from .engine import RaiseEx
+            tag = "str" if isinstance(v, str) else (v.tag if isinstance(v, Opaque) else "NoneType")
+            if tag == "str":
+                # the same string parses the same way every time: one oracle per value
+                memo = ex.__dict__.setdefault("fn_memo", {})
+                key = ("int_parses", repr(v))
+                if key not in memo:
+                    memo[key] = (fresh("int_parses", B), fresh("parsed_int"))
+                if ex.decide(memo[key][0]):
+                    return memo[key][1]
+            raise RaiseEx("ValueError" if tag == "str" else "TypeError", getattr(e, "lineno", 0))
         raise Unsupported("int() of non-number")
     if name == "float":
         return to_real(lift(A(0)))
@@ -689,6 +702,9 @@ def module_call(ex, qual, e, env):
         return v
     if qual == "random.seed":
         return None
+    if qual in ("random.default_rng", "np.random.default_rng"):
+        ex.assumptions.add("A4.rng: numpy default_rng(...) returns a Generator (oracle)")
+        return Opaque("rng", 0)
     return NOT_HANDLED
 
 
